@@ -427,6 +427,18 @@ fn stability(seed: u64, root: &Path, t: &mut Trace, ctr: &mut Counters, prop: &s
 	let ka = key_of(1);
 	insert_tree(&db, &ka, &a, &HashMap::new()).unwrap();
 	st.drain(2);
+	// earlier reader handles of the same tree, taken and dropped again (the registry then holds a
+	// dead weak reference for the key when the real reader is created)
+	let prior = rng.below(3);
+	for _ in 0..prior {
+		let r = db.get_tree(TREE_COL, &ka).unwrap().expect("tree A exists");
+		if rng.chance(1, 2) {
+			let g = r.read();
+			let _ = g.get_root();
+		}
+		drop(r);
+	}
+	ctr.inc(&format!("stability.prior_handles.{}", prior));
 	let reader = db.get_tree(TREE_COL, &ka).unwrap().expect("tree A exists");
 	let guard = reader.read();
 	let mut addrs = HashMap::new();
@@ -1061,7 +1073,10 @@ fn publish_gap(seed: u64, root: &Path, t: &mut Trace, ctr: &mut Counters, prop: 
 
 pub fn run(seeds: &[u64], thorough: bool, root: &Path, t: &mut Trace, ctr: &mut Counters, prop: &str) -> u64 {
 	let mut fails = 0;
-	for s in seeds.iter().copied() {
+	for (i, s) in seeds.iter().copied().enumerate() {
+		// a run of several cases covers every kind (and both stability variants) in turn; the
+		// adjusted seed is the one printed, so `--case-seed` replays it
+		let s = if seeds.len() > 1 { s - (s % 10) + (i as u64 % 10) } else { s };
 		let ok = match s % 5 {
 			0 => f4(s, root, t, ctr, prop),
 			1 => stability(s, root, t, ctr, prop),
